@@ -95,12 +95,32 @@ structure Good (F : List (List String)) (t t' : PTree) : Prop where
   pos : ∀ s, s ≠ [] → Proj F t.labels s → t.sem s → t'.sem s
   nil : t.sem [] → t'.sem []
   lab : ∀ x ∈ t'.labels, x ∈ t.labels
+  nd : (NE t.labels).Nodup → (NE t'.labels).Nodup
 
 theorem Good.refl (F : List (List String)) (t : PTree) : Good F t t :=
-  ⟨fun _ _ _ h => h, fun h => h, fun _ h => h⟩
+  ⟨fun _ _ _ h => h, fun h => h, fun _ h => h, fun h => h⟩
+
+/-- two lists related position by position (core Lean has no `List.Forall₂`) -/
+inductive Rel2 {α β : Type} (R : α → β → Prop) : List α → List β → Prop where
+  | nil : Rel2 R [] []
+  | cons {a b as bs} : R a b → Rel2 R as bs → Rel2 R (a :: as) (b :: bs)
+
+theorem Rel2.imp {α β : Type} {R S : α → β → Prop} (h : ∀ {a b}, R a b → S a b) :
+    ∀ {as : List α} {bs : List β}, Rel2 R as bs → Rel2 S as bs
+  | _, _, .nil => .nil
+  | _, _, .cons r rs => .cons (h r) (Rel2.imp h rs)
+
+theorem rel2_map {α β : Type} {R : α → β → Prop} (f : α → β) : ∀ (as : List α), (∀ a ∈ as, R a (f a)) →
+    Rel2 R as (as.map f)
+  | [], _ => .nil
+  | a :: as, h => .cons (h a (List.mem_cons_self ..)) (rel2_map f as fun b hb => h b (List.mem_cons_of_mem _ hb))
+
+theorem rel2_refl {α : Type} {R : α → α → Prop} (h : ∀ a, R a a) : ∀ (as : List α), Rel2 R as as
+  | [] => .nil
+  | a :: as => .cons (h a) (rel2_refl h as)
 
 theorem Good.trans {F : List (List String)} {a b c : PTree} (h1 : Good F a b) (h2 : Good F b c) : Good F a c := by
-  refine ⟨?_, fun h => h2.nil (h1.nil h), fun x hx => h1.lab x (h2.lab x hx)⟩
+  refine ⟨?_, fun h => h2.nil (h1.nil h), fun x hx => h1.lab x (h2.lab x hx), fun h => h2.nd (h1.nd h)⟩
   intro s hne hp hs
   obtain ⟨s0, hs0, hag⟩ := hp
   exact h2.pos s hne ⟨s0, hs0, fun x hx => hag x (h1.lab x hx)⟩ (h1.pos s hne ⟨s0, hs0, hag⟩ hs)
@@ -121,6 +141,24 @@ theorem labelsL_mem {c : PTree} : ∀ {cs : List PTree}, c ∈ cs → ∀ x ∈ 
     rcases List.mem_cons.mp h with rfl | h
     · exact Or.inl hx
     · exact Or.inr (labelsL_mem h x hx)
+
+/-- names stay distinct when every child is replaced by one with no new label and distinct names of its own -/
+theorem nd_rel : ∀ (cs cs' : List PTree),
+    Rel2 (fun c c' => (∀ x ∈ c'.labels, x ∈ c.labels) ∧ ((NE c.labels).Nodup → (NE c'.labels).Nodup)) cs cs' →
+    (NE (PTree.labelsL cs)).Nodup → (NE (PTree.labelsL cs')).Nodup ∧ ∀ x ∈ PTree.labelsL cs', x ∈ PTree.labelsL cs
+  | _, _, .nil, h => ⟨h, fun _ hx => hx⟩
+  | c :: cs, c' :: cs', .cons hc hcs, h => by
+    simp only [PTree.labelsL, NE_append] at h ⊢
+    obtain ⟨h1, h2, h3⟩ := List.nodup_append.mp h
+    obtain ⟨ih1, ih2⟩ := nd_rel cs cs' hcs h2
+    refine ⟨List.nodup_append.mpr ⟨hc.2 h1, ih1, ?_⟩, ?_⟩
+    · intro a ha b hb e
+      exact h3 a (mem_NE.mpr ⟨hc.1 a (mem_NE.mp ha).1, (mem_NE.mp ha).2⟩) b
+        (mem_NE.mpr ⟨ih2 b (mem_NE.mp hb).1, (mem_NE.mp hb).2⟩) e
+    · intro x hx
+      rcases List.mem_append.mp hx with hx | hx
+      · exact List.mem_append_left _ (hc.1 x hx)
+      · exact List.mem_append_right _ (ih2 x hx)
 
 section congr
 variable (F : List (List String)) (f : PTree → PTree) (s : List String) (L : List String)
@@ -257,7 +295,7 @@ theorem node_sem_congr (F : List (List String)) (f : PTree → PTree) (op : POp)
 theorem node_congr (F : List (List String)) (hF : ∀ s0 ∈ F, "" ∉ s0) (f : PTree → PTree) (op : POp)
     (cs : List PTree) (hnd : (NE (PTree.labelsL cs)).Nodup) (hg : ∀ c ∈ cs, Good F c (f c)) :
     Good F (.node op cs) (.node op (cs.map f)) := by
-  refine ⟨?_, ?_, ?_⟩
+  refine ⟨?_, ?_, ?_, ?_⟩
   · intro s hne hp hs
     obtain ⟨s0, hs0, hag⟩ := hp
     simp only [PTree.labels] at hag
@@ -272,6 +310,9 @@ theorem node_congr (F : List (List String)) (hF : ∀ s0 ∈ F, "" ∉ s0) (f : 
   · intro x hx
     simp only [PTree.labels] at hx ⊢
     exact labelsL_map_sub f cs (fun c hc => (hg c hc).lab) x hx
+  · intro h
+    simp only [PTree.labels] at h ⊢
+    exact (nd_rel cs (cs.map f) (rel2_map f cs fun c hc => ⟨(hg c hc).lab, (hg c hc).nd⟩) h).1
 
 theorem inferOrAllL_eq_map (F : List (List String)) (fuel : Nat) : ∀ (cs : List PTree),
     inferOrAllL F fuel cs = cs.map (inferOrAll F fuel)
@@ -486,16 +527,17 @@ structure GoodS (strict : Bool) (F : List (List String)) (t t' : PTree) : Prop w
   pos : ∀ s, s ≠ [] → Proj F t.labels s → t.sem s → t'.sem s
   nil : strict = true → t.sem [] → t'.sem []
   lab : ∀ x ∈ t'.labels, x ∈ t.labels
+  nd : (NE t.labels).Nodup → (NE t'.labels).Nodup
 
 theorem Good.toS {F : List (List String)} {t t' : PTree} (h : Good F t t') (strict : Bool) : GoodS strict F t t' :=
-  ⟨h.pos, fun _ => h.nil, h.lab⟩
+  ⟨h.pos, fun _ => h.nil, h.lab, h.nd⟩
 
 theorem GoodS.toGood {F : List (List String)} {t t' : PTree} (h : GoodS true F t t') : Good F t t' :=
-  ⟨h.pos, h.nil rfl, h.lab⟩
+  ⟨h.pos, h.nil rfl, h.lab, h.nd⟩
 
 theorem GoodS.trans {strict : Bool} {F : List (List String)} {a b c : PTree} (h1 : GoodS strict F a b)
     (h2 : Good F b c) : GoodS strict F a c := by
-  refine ⟨?_, fun hs h => h2.nil (h1.nil hs h), fun x hx => h1.lab x (h2.lab x hx)⟩
+  refine ⟨?_, fun hs h => h2.nil (h1.nil hs h), fun x hx => h1.lab x (h2.lab x hx), fun h => h2.nd (h1.nd h)⟩
   intro s hne hp hs
   obtain ⟨s0, hs0, hag⟩ := hp
   exact h2.pos s hne ⟨s0, hs0, fun x hx => hag x (h1.lab x hx)⟩ (h1.pos s hne ⟨s0, hs0, hag⟩ hs)
@@ -518,7 +560,7 @@ theorem step_good (F : List (List String)) (strict : Bool) (cs : List PTree)
     have := sem_nil_canEmpty c hs
     rw [hall c hc] at this
     cases this
-  refine ⟨?_, ?_, ?_⟩
+  refine ⟨?_, ?_, ?_, ?_⟩
   · intro s hsne hp hraw
     obtain ⟨s0, hs0, hag⟩ := hp
     simp only [PTree.labels] at hag
@@ -542,6 +584,14 @@ theorem step_good (F : List (List String)) (strict : Bool) (cs : List PTree)
     rcases (shape_labels hsh x).mp hx with h | h
     · exact hlabR x h
     · exact hlabN x h
+  · intro hnd
+    simp only [PTree.labels] at hnd
+    obtain ⟨op1, cs1, he, hsh⟩ := inferOrNode_shape F cs hte
+    rw [he]
+    simp only [PTree.labels]
+    exact shape_nd hsh
+      ((NE_sublist ((labelsL_removed_sublist _).trans (labelsL_sublist hsub.1))).nodup hnd)
+      ((NE_sublist (labelsL_sublist hsub.2)).nodup hnd) (disjointS_iff.mp hdj)
 
 /-- **the OR inference over the whole tree** -/
 theorem inferOrAll_goodS (F : List (List String)) (hF : ∀ s0 ∈ F, "" ∉ s0) : ∀ (fuel : Nat) (strict : Bool)
